@@ -2,3 +2,5 @@ import Model.Scalar
 import Model.Domain
 import Model.Density
 import Model.Tables
+import Model.MatrixArray
+import Model.MAHeap
